@@ -180,7 +180,7 @@ PROPS = {
                        "zero-byte-read / boundary-inside-BOM-or-CRLF plans and, for streams up to 400 bytes, with a read error at every offset. Oracles: tree == reference model "
                        "(an independent ~80-line parser of the documented grammar that sees the whole byte string), String() is a fix-point, the verdict is identical under every "
                        "delivery plan, a read error never yields a document."),
-        "level_note": ("The input dimension is sampled, not enumerated. The generator stays inside the unambiguous part of the grammar (single-digit levels, continuation lines "
+        "level_note": ("The input dimension is sampled, not enumerated. The generator stays inside the unambiguous part of the grammar (levels 0-14, continuation lines "
                        "never shaped like a line and never after a record line, role lines only after a FAM record)."),
         "rule": ("cases = seeded level-walk streams (descend, stay, dedent, new root; CR/LF/CRLF; blank lines; BOM; runs of spaces; xrefs; '@', digits, non-UTF-8 bytes) x 4 "
                  "option combinations; one evaluation = one decode. distinct_nontrivial = distinct (stream hash, delivery plan with short reads) pairs plus one per stream with "
